@@ -57,7 +57,12 @@ def strategy(tier):
     p = G.Profile(kinds={"generic"}, generic_cmds=CMDS, arg_pool=POOL, group_depth=3, max_args=6,
                   max_items=8 if tier == "quick" else 14, depth=0, dangling=False, moddoc=False)
     return st.fixed_dictionaries({"module": G.module(p), "layout": G.layout_choices(40), "crlf": st.booleans(),
-                                  "eof_newline": st.booleans(), "bom": st.sampled_from([False, False, False, True])})
+                                  "eof_newline": st.booleans(), "bom": st.sampled_from([False, False, False, True]),
+                                  "arity": G.weighted((3, st.just([])), (1, st.lists(st.tuples(st.sampled_from(["set", "option", "add_test", "ct_add_test", "ct_add_section",
+                                                                               "cpp_class", "cpp_member", "cpp_attr", "cpp_constructor"]),
+                                                              st.sampled_from([[], ["${args@}"], ['"${a@};${b}"'], ["${x@}", "${y}"]]),
+                                                              st.sampled_from(["Uses {braces} and ${var}.", "Format {0} {} {name!r} %s %(k)s.",
+                                                                               "Plain words.", "{", "}} {{", None])), min_size=1, max_size=2)))})
 
 
 def _fix_at(x):
@@ -74,7 +79,14 @@ def build(case):
         items.append(it)
     module = {"moddoc": None, "items": items}
     prelude = "".join(f"function({c})\nendfunction()\n" for c in CMDS)
-    body = R.render(module, case["layout"], eof_newline=case["eof_newline"])
+    body = R.render(module, case["layout"], eof_newline=True)
+    # commands CMinx knows, invoked with argument lists that only expand at run time (arity unknown statically)
+    for i, (cmd, args, doc) in enumerate(case.get("arity") or []):
+        if doc is not None:
+            body += "#[[[\n# " + doc + "\n#]]\n"
+        body += cmd + "(" + " ".join(a.replace("@", str(900 + i)) for a in args) + ")\n"
+    if not case["eof_newline"] and body.endswith("\n"):
+        body = body[:-1]
     text = prelude + body
     if case["crlf"]:
         text = text.replace("\r\n", "\n").replace("\n", "\r\n")
@@ -179,7 +191,12 @@ def evaluate(case):
         return res
     if stderr.strip():
         res.fail("lexer-skipped-characters", stderr.strip()[:200])
-    got_body = got[prelude_cmds:]
+    n_extra = len(case.get("arity") or [])
+    got_body = got[prelude_cmds:len(got) - n_extra] if n_extra else got[prelude_cmds:]
+    extra_got = got[len(got) - n_extra:] if n_extra else []
+    extra_want = [(cmd, [a.replace("@", str(900 + i)) for a in args]) for i, (cmd, args, doc) in enumerate(case.get("arity") or [])]
+    if [(c, a) for c, a in extra_got] != extra_want:
+        res.fail("argument-boundaries", f"run-time arity commands: expected {extra_want!r} got {extra_got!r}")
     # CRLF: arguments spanning lines carry \r\n in the source
     conv = (lambda s: s.replace("\r\n", "\n").replace("\n", "\r\n")) if case["crlf"] else (lambda s: s)
     want_src = [(c, [conv(a) for a in args]) for c, args in want]
@@ -220,7 +237,7 @@ def evaluate(case):
             page = V.Page(run.text)
             docd = [it for it in module["items"] if it.get("doc")]
             multiline = any("\n" in a for it in docd for a in M.flat_args(it["args"]))
-            ents = [n for n in page.entries() if any(a[0] == "warning" for a in n.admonitions())]
+            ents = [n for n in page.entries() if any(a[0] == "warning" and "generic command" in (a[1] or "") for a in n.admonitions())]
             if multiline:
                 res.labels.append("signature-check-skipped:multi-line-argument")
             elif len(ents) != len(docd):
@@ -237,7 +254,9 @@ def evaluate(case):
                         res.fail("documented-generic-signature", f"{it['cmd']}: expected tokens {toks!r} got {n.arg!r}")
                         break
     # (b) CMake itself, for a deterministic sample
-    if int(digest(case)[:2], 16) % 4 == 0:
+    if case.get("arity"):
+        res.labels.append("runtime-arity-commands")
+    if int(digest(case)[:2], 16) % 4 == 0 and not case.get("arity"):
         res.labels.append("cmake-differential")
         d = os.path.join(scratch_dir(), "c05")
         os.makedirs(d, exist_ok=True)
